@@ -5,8 +5,10 @@ package chain
 
 import (
 	"crypto/sha256"
+	"encoding/binary"
 	"encoding/json"
 	"fmt"
+	tmversion "github.com/cometbft/cometbft/proto/tendermint/version"
 	"math/big"
 	"sort"
 	"time"
@@ -265,6 +267,17 @@ func NewNode(o Opts) *Node {
 	return n
 }
 
+func valsHash(v []abci.Validator) []byte {
+	hs := sha256.New()
+	for _, x := range v {
+		hs.Write(x.Address)
+		var p [8]byte
+		binary.BigEndian.PutUint64(p[:], uint64(x.Power))
+		hs.Write(p[:])
+	}
+	return hs.Sum(nil)
+}
+
 func sortVals(v []abci.Validator) {
 	sort.Slice(v, func(i, j int) bool { return string(v[i].Address) < string(v[j].Address) })
 }
@@ -297,6 +310,9 @@ func (n *Node) BeginBlock(in BlockIn) abci.ResponseBeginBlock {
 	h.Time = n.Header.Time.Add(in.Dt)
 	h.AppHash = n.App.LastCommitID().Hash
 	h.ChainID = n.ChainID
+	// a header as a consensus engine would fill it far enough to have a hash (BLOCKHASH is derived from it)
+	h.ValidatorsHash, h.NextValidatorsHash = valsHash(n.ValsCur), valsHash(n.ValsNext)
+	h.Version = tmversion.Consensus{Block: 11}
 	if len(n.ValsCur) > 0 {
 		h.ProposerAddress = n.ValsCur[((in.Proposer%len(n.ValsCur))+len(n.ValsCur))%len(n.ValsCur)].Address
 	}
